@@ -141,17 +141,17 @@ def check(ctx):
     # ---------------- Blelloch scan (method="blelloch"): sweep strides and operand order
     bl = mod.func("prefixscan_blelloch")
     whiles = [w for w in walk_no_nested(bl) if isinstance(w, ast.While)]
-    up = [w for w in whiles if unparse(w.test) == "stride2 <= n_vals"]
-    down = [w for w in whiles if unparse(w.test) == "stride > 0"]
+    up = [w for w in whiles if eqv(w.test, "stride2 <= n_vals")]
+    down = [w for w in whiles if eqv(w.test, "stride > 0")]
     ctx.count("blelloch_sweeps", len(up) + len(down))
     ctx.floor("blelloch_sweeps", 2, "up-sweep and down-sweep loops of prefixscan_blelloch")
-    ok = len(up) == 1 and bool(find("stride = stride2", up[0])) and bool(find("stride2 *= 2", up[0])) and any(isinstance(l, ast.For) and unparse(l.iter) == "range(stride2 - 1, n_vals, stride2)" for l in up[0].body)
+    ok = len(up) == 1 and bool(find("stride = stride2", up[0])) and bool(find("stride2 *= 2", up[0])) and any(isinstance(l, ast.For) and eqv(l.iter, "range(stride2 - 1, n_vals, stride2)") for l in up[0].body)
     ctx.ob("ALG.blelloch.upsweep", bl, "up-sweep: for i in range(stride2 - 1, n_vals, stride2) with strides (1,2),(2,4),... while stride2 <= n_vals", ok)
-    ok = len(down) == 1 and bool(find("stride2 = stride", down[0])) and bool(find("stride //= 2", down[0])) and any(isinstance(l, ast.For) and unparse(l.iter) == "range(stride2 + stride - 1, n_vals, stride2)" for l in down[0].body)
+    ok = len(down) == 1 and bool(find("stride2 = stride", down[0])) and bool(find("stride //= 2", down[0])) and any(isinstance(l, ast.For) and eqv(l.iter, "range(stride2 + stride - 1, n_vals, stride2)") for l in down[0].body)
     ctx.ob("ALG.blelloch.downsweep", bl, "down-sweep: for i in range(stride2 + stride - 1, n_vals, stride2), halving the strides until 0", ok)
     # the down-sweep must start at the smallest power of two >= n_vals // 2 (at least 2); a floor instead
     # of a ceiling skips the partial sums of the tail blocks whenever n_vals // 2 is not a power of two
-    st0 = [a for a in walk_no_nested(bl) if isinstance(a, ast.Assign) and unparse(a.targets[0]) == "stride2" and "n_vals" in unparse(a.value)]
+    st0 = [a for a in walk_no_nested(bl) if isinstance(a, ast.Assign) and eqv(a.targets[0], "stride2") and "n_vals" in unparse(a.value)]
     verdict, how = None, "start stride not found"
     if len(st0) == 1:
         v = st0[0].value
@@ -184,8 +184,8 @@ def check(ctx):
         ok = "func(x, axis=axis, dtype=dtype)" in unparse(hf)
         ctx.ob("ALG.blelloch.scan-dtype", hf, f"{hn} scans its block with func(x, axis=axis, dtype=dtype)", ok)
     # operand order (binop need not commute): earlier block first
-    zips = [c for c in calls(bl, "zip") if len(c.args) == 3 and unparse(c.args[0]) == "indices[i]"]
-    ok = len(zips) == 2 and all(unparse(c.args[1]) == "prefix_vals[i - stride]" and unparse(c.args[2]) == "prefix_vals[i]" for c in zips) and len(find("dsk[key] = (binop, left_val, right_val)", bl)) == 2
+    zips = [c for c in calls(bl, "zip") if len(c.args) == 3 and eqv(c.args[0], "indices[i]")]
+    ok = len(zips) == 2 and all(eqv(c.args[1], "prefix_vals[i - stride]") and eqv(c.args[2], "prefix_vals[i]") for c in zips) and len(find("dsk[key] = (binop, left_val, right_val)", bl)) == 2
     ctx.ob("ALG.blelloch.operand-order", bl, "both sweeps combine (binop, prefix_vals[i - stride], prefix_vals[i]): the earlier block is the left operand", ok)
     # ---------------- twin agreement with the array-expression engine's copies (see sa/twin.py)
     n_tw = check_pairs(ctx, pairs_for("C22"))
@@ -194,10 +194,10 @@ def check(ctx):
     check_loose(ctx, loose_for("C22"))
     # ---------------- sequential scan: the carried prefix ("extra") blocks have the dtype of the scanned blocks
     cr = mod.func("cumreduction")
-    fl = [t for t in ast.walk(cr) if isinstance(t, ast.Tuple) and len(t.elts) == 4 and unparse(t.elts[1]) == "np.full_like"]
-    ok = len(fl) == 1 and unparse(fl[0].elts[2]) == "(x._meta, ident, m.dtype)"
+    fl = [t for t in ast.walk(cr) if isinstance(t, ast.Tuple) and len(t.elts) == 4 and eqv(t.elts[1], "np.full_like")]
+    ok = len(fl) == 1 and eqv(fl[0].elts[2], "(x._meta, ident, m.dtype)")
     ctx.ob("ALG.scan.carry-dtype", cr, "the initial carry is np.full_like(x._meta, ident, m.dtype): the dtype of the scanned blocks, not of the input", ok, "" if ok else "the carry has the input dtype: with an explicit dtype every block after the first is promoted while the array declares the requested dtype")
-    ok = any(unparse(r.value) == "handle_out(out, result)" for r in returns(cr)) and bool(find("result = Array(graph, name, x.chunks, m.dtype, meta=x._meta)", cr))
+    ok = any(eqv(r.value, "handle_out(out, result)") for r in returns(cr)) and bool(find("result = Array(graph, name, x.chunks, m.dtype, meta=x._meta)", cr))
     ctx.ob("ALG.scan.declared-dtype", cr, "the result declares m.dtype and x.chunks", ok)
     # ---------------- moment_combine: deviation of each block mean FROM the overall mean (sign matters for odd orders)
     mc = mod.func("moment_combine")
@@ -207,22 +207,22 @@ def check(ctx):
     # ---------------- arg-extrema on all-NaN slices: NaN is replaced by the identity of the extremum
     for fn, ident_ in (("_nanargmin", "np.inf"), ("_nanargmax", "-np.inf")):
         f_ = mod.func(fn)
-        wh = [c for c in calls(f_, "where") if unparse(c.func) == "np.where"]
-        ok = len(wh) == 1 and unparse(wh[0].args[0]) == "np.isnan(x)" and unparse(wh[0].args[1]) == ident_ and unparse(wh[0].args[2]) == "x"
+        wh = [c for c in calls(f_, "where") if eqv(c.func, "np.where")]
+        ok = len(wh) == 1 and eqv(wh[0].args[0], "np.isnan(x)") and unparse(wh[0].args[1]) == ident_ and eqv(wh[0].args[2], "x")
         ctx.ob("ALG.nanarg-identity", f_, f"{fn}: NaNs are replaced by {ident_} (never selected unless everything is NaN)", ok, "" if ok else f"NaN is replaced by {unparse(wh[0].args[1]) if wh else None}: the NaN position wins the extremum")
     # ---------------- topk / argtopk: k may exceed the axis
     ck = model.module("dask/array/chunk.py")
     at = ck.func("argtopk")
     rs = returns(at)
-    ok = bool(rs) and all(isinstance(r.value, ast.Tuple) and len(r.value.elts) == 2 for r in rs) and not any(unparse(r.value) == "a_plus_idx" for r in rs)
-    early = [r for r in rs if any(unparse(e) == "abs(k) >= a.shape[axis]" and pol for e, pol in cfg_of(at).facts(r))]
-    ok = ok and len(early) == 1 and unparse(early[0].value) == "(a, idx)"
+    ok = bool(rs) and all(isinstance(r.value, ast.Tuple) and len(r.value.elts) == 2 for r in rs) and not any(eqv(r.value, "a_plus_idx") for r in rs)
+    early = [r for r in rs if any(eqv(e, "abs(k) >= a.shape[axis]") and pol for e, pol in cfg_of(at).facts(r))]
+    ok = ok and len(early) == 1 and eqv(early[0].value, "(a, idx)")
     ctx.ob("SHAPE.argtopk.pair", at, "every exit of chunk.argtopk returns the (values, indices) pair; the k >= n exit returns the concatenated (a, idx)", ok, "" if ok else "the k >= n exit hands back its input, which is a LIST of pairs when several blocks were combined: argtopk_aggregate cannot unpack it")
     for fn in ("topk", "argtopk"):
         f = mod.func(fn)
         rc = [c for c in calls(f, "reduction")]
         osz = kwarg(rc[0], "output_size") if len(rc) == 1 else None
-        ok = osz is not None and unparse(osz) == "builtins.min(abs(k), a.shape[axis])"
+        ok = osz is not None and eqv(osz, "builtins.min(abs(k), a.shape[axis])")
         ctx.ob("ALG.topk.output-size", f, f"{fn}: declared length along the axis is min(abs(k), a.shape[axis])", ok, "" if ok else "with abs(k) > n the declared shape is longer than the computed result")
 
 
